@@ -130,7 +130,7 @@ fn check_case(c: &Case, rec: &mut Recorder) -> Result<(), (String, J)> {
         let mut out = vec![];
         // the error itself comes in three makes: a custom error with a message, a raw
         // OS error (what a File returns) and a bare ErrorKind without payload
-        let fail_kind = ((k + n) % 3) as u8;
+        let fail_kind = ((k + n) % 5) as u8;
         let expected_text = injected_read_error_kind(k, fail_kind).to_string();
         let mut failing = SchedReader::failing(&c.bytes, c.sched.clone(), k);
         failing.fail_kind = fail_kind;
@@ -165,7 +165,7 @@ fn check_case(c: &Case, rec: &mut Recorder) -> Result<(), (String, J)> {
         let after_first_doc = !docs.is_empty();
         rec.count(if after_first_doc || (c.detect && k > 0) { Some(hash_bytes(&[&c.bytes, c.to.name().as_bytes(), b"r", &(k as u64).to_le_bytes(), opt_name(from).as_bytes()])) } else { None });
         rec.class("fault:reader");
-        rec.class(["reader_error:custom", "reader_error:raw_os", "reader_error:bare_kind"][fail_kind as usize]);
+        rec.class(["reader_error:custom", "reader_error:raw_os", "reader_error:bare_kind", "reader_error:unexpected_eof_kind", "reader_error:invalid_data_kind"][fail_kind as usize]);
         if after_first_doc {
             rec.class("fault:reader_after_first_document");
         }
@@ -333,7 +333,7 @@ impl Check for C12 {
         "fault_enumeration"
     }
     fn rule(&self) -> String {
-        "For generated valid streams (1..4 documents of each format, YAML also re-encoded as UTF-16/32; source named or detected; every target; a drawn read schedule): (a) a reader that fails - and keeps failing - once k bytes were delivered, for EVERY k in 0..=|input| (257 spread values above 2 KiB): the result must be Err whose text contains the reader's own error text (the error is, in turn, a custom error carrying INJECTED-R-k, a raw OS error as a File returns it, and a bare ErrorKind without payload) (or the input's own fault-free error when that strikes first), never Ok or a panic, and the complete documents in the partial output (lines for JSON, '---'-introduced documents for YAML, whole values for MessagePack, all-or-nothing for TOML) must be, in order, a prefix of the fault-free documents; (b) a writer that accepts exactly k bytes and then fails - with an error, or by answering Ok(0) like a full fixed-size buffer -, for EVERY k below the fault-free output length (256 spread values above 1 KiB), reader and slice input: Err, and the accepted bytes are a prefix of the fault-free output; (a') a reader of which ONE read fails with ErrorKind::Interrupted after k bytes and which then works again, for every k, source format named: Err, or Ok with exactly the fault-free output (an addition beyond the statement's keep-failing readers; it holds on the unchanged tree); (c) a writer that only accepts short pieces (1 byte; a drawn pattern) and never fails: Ok and exactly the fault-free bytes; unit 'flush' checks that Translator::flush reaches the writer and preserves its error. One evaluation = one injected fault; non-trivial = the fault lands after the first document or inside detection's look-ahead (reader), after byte 0 (writer), any short-write run; distinct by hash of (input, target, fault kind, k).".into()
+        "For generated valid streams (1..4 documents of each format, YAML also re-encoded as UTF-16/32; source named or detected; every target; a drawn read schedule): (a) a reader that fails - and keeps failing - once k bytes were delivered, for EVERY k in 0..=|input| (257 spread values above 2 KiB): the result must be Err whose text contains the reader's own error text (the error is, in turn, a custom error carrying INJECTED-R-k, a raw OS error as a File returns it, a bare ErrorKind without payload, and custom errors of the kinds UnexpectedEof and InvalidData, which parsers also produce themselves) (or the input's own fault-free error when that strikes first), never Ok or a panic, and the complete documents in the partial output (lines for JSON, '---'-introduced documents for YAML, whole values for MessagePack, all-or-nothing for TOML) must be, in order, a prefix of the fault-free documents; (b) a writer that accepts exactly k bytes and then fails - with an error, or by answering Ok(0) like a full fixed-size buffer -, for EVERY k below the fault-free output length (256 spread values above 1 KiB), reader and slice input: Err, and the accepted bytes are a prefix of the fault-free output; (a') a reader of which ONE read fails with ErrorKind::Interrupted after k bytes and which then works again, for every k, source format named: Err, or Ok with exactly the fault-free output (an addition beyond the statement's keep-failing readers; it holds on the unchanged tree); (c) a writer that only accepts short pieces (1 byte; a drawn pattern) and never fails: Ok and exactly the fault-free bytes; unit 'flush' checks that Translator::flush reaches the writer and preserves its error. One evaluation = one injected fault; non-trivial = the fault lands after the first document or inside detection's look-ahead (reader), after byte 0 (writer), any short-write run; distinct by hash of (input, target, fault kind, k).".into()
     }
     fn assumptions(&self) -> Vec<String> {
         vec!["faulty readers keep failing once they failed (as the statement says)".into()]
@@ -342,7 +342,7 @@ impl Check for C12 {
         vec![Unit::gen("faults", 16, tier.pick(600, 6000)), Unit::enumerate("flush", 1)]
     }
     fn required_classes(&self, _tier: Tier) -> Vec<&'static str> {
-        vec!["fault:reader", "reader_error:custom", "reader_error:raw_os", "reader_error:bare_kind", "fault:reader_interrupted_once", "fault:reader_after_first_document", "fault:writer", "fault:writer_full", "fault:writer_slice_input", "fault:short_writes", "fault:flush", "from:detect", "from:yaml", "from:json", "from:msgpack", "from:toml", "to:json", "to:yaml", "to:toml", "to:msgpack"]
+        vec!["fault:reader", "reader_error:custom", "reader_error:raw_os", "reader_error:bare_kind", "reader_error:unexpected_eof_kind", "reader_error:invalid_data_kind", "fault:reader_interrupted_once", "fault:reader_after_first_document", "fault:writer", "fault:writer_full", "fault:writer_slice_input", "fault:short_writes", "fault:flush", "from:detect", "from:yaml", "from:json", "from:msgpack", "from:toml", "to:json", "to:yaml", "to:toml", "to:msgpack"]
     }
     fn run_unit(&self, unit: &Unit, _shard: u32, seed: u64, _tier: Tier, rec: &mut Recorder) {
         match unit.name {
